@@ -46,7 +46,7 @@ claim("C19", "continuations run once and only with a ready antecedent whatever t
 claim("C20", "timed waits: 'ready' only when complete, 'timeout' only when the simulated clock passed the deadline (relative and absolute, steady and system clock), non-deferred functors never run on the waiter")
 claim("C22", "occupancy counters inside critical sections for lock/try_lock/lock_shared/try_lock_shared/upgrade/downgrade (single-writer plans for upgrade), progress via deadlock detector, idle lock admits both kinds")
 claim("C23", "occupancy counters across all slots for explicit slot maps and the public class, N in {1,2,4,16}; after quiescence every slot admits a reader and a writer")
-claim("C24", "history invariants: every delivered tag was emplaced and is delivered at most once; the k-th successful emplace needs k requests and k-1 fetches invoked", "At atomic-operation granularity the moved-from OpResult hides the two-consumer race (DESIGN.md §11); the claim is for that granularity.")
+claim("C24", "history invariants: every delivered tag was emplaced and is delivered at most once; the k-th successful emplace needs k requests and k-1 fetches invoked", "The two-consumer race (fixed in 669d879) opens and closes at plain accesses, so it is only reachable in the fine-default variant (plain accesses of code under test are scheduling points).")
 claim("C25", "per-resource holder counters, held<=size, move-assignment recycles, construction/destruction balance, blocked acquirers proceed (deadlock detector)")
 claim("C26", "invocation count <= timesToRun, none after a false return, none starting after cancel() returned (check-then-act rule), none in progress or starting after a non-detached destructor returned, first run not before its scheduled time")
 claim("C27", "per-(item,stage) counters, predecessor-output chain, filtering, all invocations finished at return, payload live counter zero")
@@ -93,7 +93,8 @@ def main():
                     "design_ref": "DESIGN.md §7 " + pid,
                 },
                 "level_note": "Trusted: simrt's model of futex/mutex/cond/semaphore/thread lifecycle and its discrete-event clock; every "
-                              "execution is sequentially consistent (one thread runs at a time); tuning variants default and tiny; "
+                              "execution is sequentially consistent (one thread runs at a time); tuning variants default and tiny at atomic-operation granularity plus fine-default, where every plain "
+                              "memory access made by dispenso code is a scheduling point too; "
                               "<= 8 simulated threads per run." + (" " + note if note else ""),
             })
         elif pid in NOT_APPLICABLE_PURE:
